@@ -501,7 +501,7 @@ fn random_segs(rng: &mut Rng) -> Value {
                     let (c, n) = (*rng.pick(&[3u64, 8, 16]), *rng.pick(&[255usize, 256, 257, 600]));
                     sizes = vec![c; n];
                 }
-                segs.push(json!({"c":"wrap","k":k,"big":rng.chance(4,5),"s":rng.below(1000),"hdr":rng.below(4),
+                segs.push(json!({"c":"wrap","k":k,"big":rng.chance(4,5),"s":rng.below(1000),"hdr":rng.below(8),
                     "flags":rng.below(16)*2,"x":*rng.pick(&[0u64,0,1,1,300,300,3000,65535]),"nm":*rng.pick(&[0u64,1,40,255,256,5000]),"cm":*rng.pick(&[0u64,1,40,256,5000]),
                     "sizes":sizes,"trail":*rng.pick(&[0u64,0,1,4,7,8,9,20])}));
             }
